@@ -38,3 +38,44 @@ def _(c):
               f" ({k} < 0 and exists(lambda j: 0 <= j and j < -{k} and j < {n} and truthy(M[{n} - 1 - j][0])))), same(result, sv.args[0]))",
               name="variadic.index_across_the_unpacked_part_falls_back_to_the_common_type")
     c.assume("soundness of these answers for every concrete sequence of the type follows from the segmentation meaning of SequenceValue (a single member occupies exactly one position) -- theory-level, not discharged")
+
+
+# ---------------------------------------------------------------------------
+# unpacking a sequence value into assignment targets: `a, b, c = x` and `a, *b, c = x`
+
+def _unite(k):
+    k.param("*values", "tuple"); k.returns("val"); k.functional = True; k.fn_name = "unite_values"
+
+
+@contract("pyanalyze.value._unpack_sequence_value", props=P)
+def _(c):
+    c.param("value", "obj:SequenceValue"); c.param("target_length", "int"); c.param("post_starred_length", "opt[int]")
+    c.fieldspec("members", "seq[pair[bool,val]]")
+    c.returns("val")
+    c.callee("unite_values", _unite)
+    c.requires("target_length >= 0 and (post_starred_length is None or post_starred_length >= 0)", name="lengths_are_counts")
+    M = "value.members"
+    n = f"len({M})"
+    c.loop(0, invariant=[("head_is_the_leading_single_members",
+                          f"len(head) <= target_length and len(head) <= {n} and all(not truthy({M}[j][0]) and same(head[j], {M}[j][1]) for j in range(len(head)))")])
+    tail_inv = f"len(tail) + len(head) <= {n} and all(not truthy({M}[{n} - 1 - j][0]) and same(tail[j], {M}[{n} - 1 - j][1]) for j in range(len(tail)))"
+    c.loop(1, invariant=[("tail_is_the_trailing_single_members_backwards", f"len(tail) <= target_length - len(head) and {tail_inv}")])
+    c.loop(2, invariant=[("tail_is_the_trailing_single_members_backwards", f"len(tail) <= post_starred_length and {tail_inv}")])
+    R = "unS_(result)"
+    ok = "not isa(result, CanAssignError)"
+    # the segmentation meaning of a SequenceValue: a single member occupies exactly one position.  Counting from the front, position i of every
+    # concrete sequence is described by member i as long as members 0..i are all single; counting from the back likewise.
+    c.ensures(f"implies({ok} and post_starred_length is None, len({R}) == target_length)", name="plain.one_value_per_target")
+    c.ensures(f"implies({ok} and post_starred_length is None, all(implies(i < {n} and all(not truthy({M}[j][0]) for j in range(i + 1)), same({R}[i], {M}[i][1])) for i in range(target_length)))",
+              name="plain.a_target_before_the_unpacked_part_gets_the_member_at_its_position")
+    c.ensures(f"implies({ok} and post_starred_length is None, all(implies(i < {n} and all(not truthy({M}[{n} - 1 - j][0]) for j in range(i + 1))"
+              f" and ({n} == target_length or not (target_length - 1 - i < {n} and all(not truthy({M}[j][0]) for j in range(target_length - i)))),"
+              f" same({R}[target_length - 1 - i], {M}[{n} - 1 - i][1])) for i in range(target_length)))",
+              name="plain.a_target_after_the_unpacked_part_gets_the_member_at_its_position_from_the_back")
+    # (when the front rule and the back rule both apply to one position with different members, the single members alone outnumber the targets:
+    #  no concrete sequence has that length and nothing is claimed)
+    c.ensures(f"implies({ok} and post_starred_length is not None, len({R}) == target_length + 1 + post_starred_length)", name="starred.one_value_per_target")
+    c.ensures(f"implies({ok} and post_starred_length is not None, all(implies(i < {n} and all(not truthy({M}[j][0]) for j in range(i + 1)), same({R}[i], {M}[i][1])) for i in range(target_length)))",
+              name="starred.a_target_before_the_star_gets_the_member_at_its_position")
+    c.ensures(f"implies({ok} and post_starred_length is not None, all(implies(i < {n} - target_length and all(not truthy({M}[{n} - 1 - j][0]) for j in range(i + 1)), same({R}[target_length + post_starred_length - i], {M}[{n} - 1 - i][1])) for i in range(post_starred_length)))",
+              name="starred.a_target_after_the_star_gets_the_member_at_its_position_from_the_back")
